@@ -168,7 +168,20 @@ func (op *Operation) popClosestUnqueried() types.AddrMaybeId {
 	return ret
 }
 
+// Drops the nearest candidates whose address has been queried since they were added: the same
+// address can be advertised under several IDs, and must still only be queried once.
+func (op *Operation) discardQueriedCandidates() {
+	for op.unqueried.Len() != 0 {
+		cu := op.closestUnqueried()
+		if _, ok := op.queried[addrString(cu.Addr.String())]; !ok {
+			return
+		}
+		op.unqueried = op.unqueried.Delete(cu)
+	}
+}
+
 func (op *Operation) haveQuery() bool {
+	op.discardQueriedCandidates()
 	if op.unqueried.Len() == 0 {
 		return false
 	}
